@@ -1,6 +1,7 @@
 //! Replays witnesses and runs fidelity / witness-search batteries against the REAL crates
 //! in /repo (path dependencies).  Built with debug assertions and overflow checks.
 mod k3;
+mod c05;
 mod k10;
 mod k11f;
 mod k7;
@@ -23,6 +24,9 @@ fn main() {
         "replay-k3" => k3::replay(&args[2]),
         "witness-k10" => k10::witness(),
         "replay-k10" => k10::replay(&args[2]),
+        "witness-c05" => c05::witness(),
+        "replay-c05" => c05::replay(&args[2]),
+        "child-c05" => c05::child(&args[2]),
         "witness-k11f" => k11f::witness(),
         "replay-k11f" => k11f::replay(&args[2]),
         "witness-k7" => k7::witness(),
